@@ -59,4 +59,51 @@ theorem easter_int (y : Int) : easter y = easterI y := by
     imod_pos _ 19 (by decide), imod_pos _ 100 (by decide), imod_pos _ 4 (by decide),
     imod_pos _ 30 (by decide), imod_pos _ 7 (by decide), imod_pos _ 31 (by decide)]
 
+/-! ### Pesach -/
+
+/-- `q · 10¹²` of `jewish_pesach` (all decimal constants have at most 12 decimals) -/
+def pesachS (y : Int) : Int := if y < 1583 then 0 else (3 * (y / 100) - 5) / 4
+def pesachNum (y : Int) : Int :=
+  -1904412361576 + 1554241796621 * ((12 * (y + 1)) % 19) + 250000000000 * (y % 4)
+    - 3177794022 * y + 1000000000000 * pesachS y
+
+def pesachI (y : Int) : Int × Int :=
+  let s := pesachS y
+  let a := (12 * (y + 1)) % 19
+  let b := y % 4
+  let fq := pesachNum y / 1000000000000
+  let rr := pesachNum y % 1000000000000
+  let j := (fq + 3 * y + 5 * b + 2 - s) % 7
+  let d : Int :=
+    if j = 2 ∨ j = 4 ∨ j = 6 then fq + 23
+    else if j = 1 ∧ a > 6 ∧ 632870370000 < rr then fq + 24
+    else if j = 0 ∧ a > 11 ∧ 897723765000 < rr then fq + 23
+    else fq + 22
+  if d > 31 then (4, d - 31) else (3, d)
+
+theorem fl_3c5 (c : Int) : pfloor ((3.0 * ofInt c - 5.0) / 4.0) = (3 * c - 5) / 4 :=
+  pfloor_div _ _ _ (by norm_num) (by norm_num [ofInt])
+
+theorem jewish_pesach_int (y : Int) : jewish_pesach y = pesachI y := by
+  have hq : (-1.904412361576 + 1.554241796621 * ofInt ((12 * (y + 1)) % 19) + 0.25 * ofInt (y % 4)
+      - 0.003177794022 * ofInt y + ofInt (pesachS y) : ℚ) = (pesachNum y : ℚ) / 1000000000000 := by
+    unfold pesachNum ofInt; push_cast; norm_num; ring
+  have hfl : pfloor ((pesachNum y : ℚ) / 1000000000000) = pesachNum y / 1000000000000 :=
+    pfloor_div _ _ _ (by norm_num) (by norm_num)
+  have hr : (pesachNum y : ℚ) / 1000000000000 - ofInt (pesachNum y / 1000000000000)
+      = ((pesachNum y % 1000000000000 : Int) : ℚ) / 1000000000000 := by
+    rw [Int.emod_def]; unfold ofInt; push_cast; ring
+  have ht1 : ∀ r : Int, plt 0.632870370 ((r : ℚ) / 1000000000000) = true ↔ 632870370000 < r := by
+    intro r; unfold plt; rw [decide_eq_true_iff, lt_div_iff₀ (by norm_num)]
+    rw [show (0.632870370 : ℚ) * 1000000000000 = ((632870370000 : Int) : ℚ) by norm_num]
+    exact_mod_cast Iff.rfl
+  have ht2 : ∀ r : Int, plt 0.897723765 ((r : ℚ) / 1000000000000) = true ↔ 897723765000 < r := by
+    intro r; unfold plt; rw [decide_eq_true_iff, lt_div_iff₀ (by norm_num)]
+    rw [show (0.897723765 : ℚ) * 1000000000000 = ((897723765000 : Int) : ℚ) by norm_num]
+    exact_mod_cast Iff.rfl
+  unfold jewish_pesach pesachI
+  simp only [fl_div100, fl_3c5, imod_pos _ 19 (by decide), imod_pos _ 4 (by decide), imod_pos _ 7 (by decide)]
+  rw [show (if y < 1583 then 0 else (3 * (y / 100) - 5) / 4) = pesachS y from rfl]
+  simp only [hq, hfl, hr, ht1, ht2]
+
 end Pymeeus.Refine
